@@ -4,7 +4,9 @@ package c32
 // specs, and the driver-side shadow of the store (headers by height, observed peer map).
 
 import (
+	"bytes"
 	"crypto/sha256"
+	"math/big"
 	"encoding/hex"
 	"encoding/json"
 	"fmt"
@@ -12,7 +14,9 @@ import (
 	"sort"
 	"strings"
 
+	"github.com/ontio/ontology-crypto/ec"
 	"github.com/ontio/ontology-crypto/keypair"
+	"golang.org/x/crypto/ed25519"
 	s "github.com/ontio/ontology-crypto/signature"
 	"github.com/ontio/ontology/common"
 	"github.com/ontio/ontology/common/config"
@@ -46,7 +50,7 @@ const ghostBase = 1000
 
 // sigSpec says how one SigData entry is made.
 type sigSpec struct {
-	Kind string `json:"kind"` // valid | othermsg | corrupt | undecodable | dup
+	Kind string `json:"kind"` // valid | othermsg | corrupt | undecodable | dup | blob (well-formed ECDSA-scheme bytes nobody signed)
 	K    int    `json:"k,omitempty"`   // signing key id (valid, othermsg, corrupt)
 	V    int    `json:"v,omitempty"`   // variant (undecodable), message salt (othermsg)
 	D    int    `json:"d,omitempty"`   // index of the earlier entry to repeat (dup)
@@ -62,6 +66,7 @@ type hdrSpec struct {
 	Last       uint32    `json:"last_config_block_num"`
 	Cfg        *mCfg     `json:"new_chain_config,omitempty"`
 	Bks        []int     `json:"bookkeepers"`
+	Enc        []string  `json:"encodings,omitempty"` // per bookkeeper: "" standard | uncompressed | off+N | zero | infinity | nonresidue
 	Sigs       []sigSpec `json:"sigs"`
 	Salt       uint64    `json:"salt"` // ConsensusData, makes hashes distinct
 	BlockRoot  bool      `json:"block_root,omitempty"` // carry the block merkle root a block at this height must have
@@ -267,12 +272,9 @@ func (e *env) build(sp *hdrSpec) (*types.Header, *mHeader) {
 	}
 	hash := h.Hash()
 	m := &mHeader{Height: sp.Height, Prev: e.hid(prev), Time: sp.Time, InfoOK: !sp.BadPayload, Last: sp.Last,
-		Cfg: sp.Cfg, Bks: append([]int{}, sp.Bks...), Hash: e.hid(hash)}
+		Cfg: sp.Cfg, Hash: e.hid(hash)}
 	if sp.BadPayload {
 		m.Cfg = nil
-	}
-	for _, id := range sp.Bks {
-		h.Bookkeepers = append(h.Bookkeepers, e.key(id).pub)
 	}
 	for i, ss := range sp.Sigs {
 		var raw []byte
@@ -309,6 +311,13 @@ func (e *env) build(sp *hdrSpec) (*types.Header, *mHeader) {
 				raw = []byte{}
 				ms = mSig{Bad: true}
 			}
+		case "blob":
+			raw = make([]byte, 65)
+			raw[0] = byte(s.SHA256withECDSA)
+			for j := 1; j < len(raw); j++ {
+				raw[j] = byte(j*7 + ss.V)
+			}
+			ms = mSig{K: 0, Msg: 0}
 		default:
 			panic("sig kind " + ss.Kind)
 		}
@@ -321,7 +330,136 @@ func (e *env) build(sp *hdrSpec) (*types.Header, *mHeader) {
 		h.SigData = append(h.SigData, raw)
 		m.Sigs = append(m.Sigs, ms)
 	}
+	// bookkeepers: standard key objects, or - when an encoding is given - a header serialized by hand
+	// around the real unsigned part and decoded by types.HeaderFromRawBytes, as a peer would receive it
+	hostile := false
+	for _, enc := range sp.Enc {
+		if enc != "" {
+			hostile = true
+		}
+	}
+	if !hostile {
+		for _, id := range sp.Bks {
+			h.Bookkeepers = append(h.Bookkeepers, e.key(id).pub)
+		}
+	} else {
+		un := common.NewZeroCopySink(nil)
+		(&types.Header{Version: h.Version, PrevBlockHash: h.PrevBlockHash, TransactionsRoot: h.TransactionsRoot, BlockRoot: h.BlockRoot,
+			Timestamp: h.Timestamp, Height: h.Height, ConsensusData: h.ConsensusData, ConsensusPayload: h.ConsensusPayload,
+			NextBookkeeper: h.NextBookkeeper}).Serialization(un)
+		raw := common.NewZeroCopySink(nil)
+		raw.WriteBytes(un.Bytes()[:len(un.Bytes())-2])
+		raw.WriteVarUint(uint64(len(sp.Bks)))
+		for i, id := range sp.Bks {
+			enc := ""
+			if i < len(sp.Enc) {
+				enc = sp.Enc[i]
+			}
+			raw.WriteVarBytes(e.encodeKey(id, enc))
+		}
+		raw.WriteVarUint(uint64(len(h.SigData)))
+		for _, g := range h.SigData {
+			raw.WriteVarBytes(g)
+		}
+		dec, err := types.HeaderFromRawBytes(raw.Bytes())
+		if err != nil || dec.Hash() != hash {
+			return nil, nil // the wire form does not decode: no header reaches the ledger
+		}
+		h = dec
+	}
+	for _, key := range h.Bookkeepers {
+		m.Bks = append(m.Bks, e.classifyKey(key))
+	}
 	return h, m
+}
+
+// sameKey: the same key object (type, algorithm, curve, X and Y); keypair.ComparePublicKey looks at X only.
+func sameKey(a, b keypair.PublicKey) bool {
+	switch x := a.(type) {
+	case *ec.PublicKey:
+		y, ok := b.(*ec.PublicKey)
+		return ok && x.Algorithm == y.Algorithm && x.Params().Name == y.Params().Name && x.X.Cmp(y.X) == 0 && x.Y.Cmp(y.Y) == 0
+	case ed25519.PublicKey:
+		y, ok := b.(ed25519.PublicKey)
+		return ok && bytes.Equal(x, y)
+	}
+	return false
+}
+
+// classifyKey maps a decoded key object to the model's bkey.
+func (e *env) classifyKey(key keypair.PublicKey) mBk {
+	for _, k := range e.keys {
+		if sameKey(key, k.pub) {
+			return mBk{K: k.id}
+		}
+	}
+	id := unknownID
+	func() {
+		defer func() { recover() }()
+		if v, ok := e.idOf[vconfig.PubkeyID(key)]; ok && v < ghostBase {
+			id = v
+		}
+	}()
+	return mBk{K: id, Forged: true}
+}
+
+// guardedVerify: the crypto library called directly with a recover around it.
+func guardedVerify(pub keypair.PublicKey, data, raw []byte) (ok bool, panicked bool) {
+	sg, err := s.Deserialize(raw)
+	if err != nil {
+		return false, false
+	}
+	defer func() {
+		if r := recover(); r != nil {
+			ok, panicked = false, true
+		}
+	}()
+	return s.Verify(pub, data, sg), false
+}
+
+// encodeKey: wire encodings of pool key id a header may carry in place of the standard compressed
+// form. "uncompressed": the genuine point 04 X Y; "off+N": the point (X, Y+N), off the curve, same
+// PubkeyID when N is even; "nonresidue": a compressed form whose X has no Y; "zero": (0,0);
+// "infinity": a 00 form. Ed25519 keys only have the standard form.
+func (e *env) encodeKey(id int, enc string) []byte {
+	std := keypair.SerializePublicKey(e.key(id).pub)
+	pk, isEC := e.key(id).pub.(*ec.PublicKey)
+	if enc == "" || !isEC {
+		return std
+	}
+	L := (pk.Params().BitSize + 7) >> 3
+	prefix := append([]byte{}, std[:len(std)-(1+L)]...)
+	fixed := func(v *big.Int) []byte {
+		b := v.Bytes()
+		if len(b) > L {
+			b = b[len(b)-L:]
+		}
+		return append(make([]byte, L-len(b)), b...)
+	}
+	switch {
+	case enc == "uncompressed":
+		return append(append(append(prefix, 0x04), fixed(pk.X)...), fixed(pk.Y)...)
+	case strings.HasPrefix(enc, "off+"):
+		var n int64
+		fmt.Sscanf(enc[4:], "%d", &n)
+		y := new(big.Int).Add(pk.Y, big.NewInt(n))
+		return append(append(append(prefix, 0x04), fixed(pk.X)...), fixed(y)...)
+	case enc == "nonresidue":
+		x := new(big.Int).Set(pk.X)
+		for i := 0; i < 64; i++ {
+			x.Add(x, big.NewInt(1))
+			cand := append(append(append([]byte{}, prefix...), 0x02), fixed(x)...)
+			if _, err := keypair.DeserializePublicKey(cand); err != nil {
+				return cand
+			}
+		}
+		return std
+	case enc == "zero":
+		return append(append(prefix, 0x04), make([]byte, 2*L)...)
+	case enc == "infinity":
+		return append(append(prefix, 0x00), make([]byte, L)...)
+	}
+	panic("encoding " + enc)
 }
 
 func (e *env) sign(id int, data []byte) []byte {
@@ -338,11 +476,7 @@ func (e *env) realVerify(id int, data []byte, raw []byte) bool {
 	if v, ok := e.vcache[ck]; ok {
 		return v
 	}
-	ok := false
-	func() {
-		defer func() { recover() }()
-		ok = signature.Verify(e.key(id).pub, data, raw) == nil
-	}()
+	ok, _ := guardedVerify(e.key(id).pub, data, raw) // the member's GENUINE key object, library called directly
 	e.vcache[ck] = ok
 	return ok
 }
